@@ -666,6 +666,30 @@ M('C09', 'get_B scales vR with left singular values', MPS,
   'MPS-form-flow')
 
 # ---------------------------------------------------------------- C01 / C07
+M('C01', 'get_qindex accepts the index one past the end (original defect)', 'tenpy/linalg/charges.py',
+  "        elif flat_index >= self.ind_len:", "        elif flat_index > self.ind_len:", 'BOUND-inclusive')
+M('C01', 'concatenate promotes only first and last dtype (seed)', NPC,
+  "    dtype = res.dtype = np.result_type(*[a.dtype for a in arrays])",
+  "        dtype = np.promote_types(res.dtype, a.dtype)\n    res.dtype = dtype", 'ACCUM-last-wins')
+M('C02', 'project inherits the bunched claim (seed)', 'tenpy/linalg/charges.py',
+  "cp.bunched = self.is_blocked()", "cp.bunched = self.bunched or self.is_blocked()", 'FLAG-L-inherit')
+M('C10', 'bond_energies evaluates H_bond one bond off (original defect)', 'tenpy/models/model.py',
+  """            H_bond = self.H_bond[1:] + self.H_bond[:1]
+            E_bond = psi.expectation_value(H_bond, axes=(['p0', 'p1'], ['p0*', 'p1*']))
+            return np.roll(E_bond, 1)""",
+  """            return psi.expectation_value(self.H_bond, axes=(['p0', 'p1'], ['p0*', 'p1*']))""",
+  'BOND-convention')
+M('C10', 'onsite weights of the end sites also on infinite chains (seed)', 'tenpy/models/model.py',
+  "strength_i = 1.0 if finite and i == 0 else 0.5", "strength_i = 1.0 if i == 0 else 0.5", 'WEIGHT-onsite')
+M('C10', 'exporter sorts a second time instead of undoing (seed)', 'tenpy/algorithms/exact_diag.py',
+  "perm = inverse_permutation(sites[i].perm)", "perm = sites[i].perm", 'PERM-undo')
+M('C12', 'change_charge updates state_labels in place (seed)', SITE,
+  "            self.state_labels = dict((lbl, int(inv_perm[i])) for lbl, i in self.state_labels.items())",
+  "            for lbl, i in self.state_labels.items():\n                self.state_labels[lbl] = int(inv_perm[i])",
+  'OWN-shallow')
+M('C09', 'add() takes the first site in B form (seed)', MPS,
+  "theta_self = self.get_B(0, 'Th').transpose(legs)", "theta_self = self.get_B(0, 'B').transpose(legs)",
+  'MPS-bond-coverage')
 M('C01', 'take_slice labels from removed axes', NPC, 'res._labels = [labels[a] for a in keep_axes]',
   'res._labels = [labels[a] for a in axes]', 'AXIS-carriers')
 M('C01', 'trace keeps labels of all axes but two wrong', NPC,
